@@ -51,7 +51,11 @@ RULE = ("struct shapes of 1-6 fields over bool/int8..int64/int/uint8..uint64/uin
         "numeric cases: every int/uint width x 26 spellings (beyond int64, float syntax, blanks, sign, 0x, leading zeros) x "
         "{`,string`, WithStringValues() mode, default=, string and number-token elements of slices and maps}; 6% float tokens "
         "through {JSON, YAML} x {float32, float64} compared by bit pattern with strconv.ParseFloat; 6% direct Marshal; "
-        "round trips include optional members with/without default= explicitly set to zero; a fixed directed set "
+        "round trips include optional members with/without default= explicitly set to zero and form strings with leading/"
+        "trailing blanks, blank-only, tabs and newlines; every case also runs the reader entry points against the bytes "
+        "entry points (15% also on the empty / blank document, a drained and a one-byte-at-a-time reader); 8% + 25 fixed "
+        "'direct' cases call httpx.Parse on a constructed GET query / POST form / programmatic header map (empty, nil and "
+        "several-value lists); a fixed directed set "
         "(D1/D9 reproductions, tag-option clauses) is part of every run; non-trivial = the document sets at least one "
         "field and is not the directed prefix only; distinct = distinct canonical case JSON")
 TRUSTED = ["encoding/json tokenisation with UseNumber, yaml.v2 scalar resolution, reflect (Set*, Overflow*, StructOf)",
